@@ -132,6 +132,14 @@ def run(ctx):
     ctx.cov['distribution']['code_f syntactically identical to doc_f'] = n_ident
     # 2. theorems
     ok, log = ctx.build_props(allowed_axioms=sorted(core.STDLIB_REAL_AXIOMS) + INTERVAL_AXIOMS)
+    try:
+        ptxt = open(os.path.join(core.THEORIES, 'Props', 'C17.v')).read()
+        for nm in ('C17_ackley1', 'C17_csendes'):
+            m = re.search(r'Theorem %s :(.*?)\nProof\.' % nm, ptxt, re.S)
+            if m:
+                ctx.sample({'theorem': nm, 'statement': ' '.join(m.group(1).split())})
+    except OSError:
+        pass
     if ok:
         for th in ctx.cov['theorems']:
             if not any(k in th['name'] for k in INTERVAL_THEOREMS):
